@@ -1,10 +1,13 @@
 #!/bin/sh
 # apply a behaviour-preserving refactoring to /repo, run EVERY check (quick), undo.  All must stay silent.
+# REPO=<dir> runs against a scratch worktree instead of /repo (then the repository's own tests are built there with cmake).
 P=$(readlink -f "$1"); cd /verif; echo "== neutral change: $P"
-git -C /repo diff --quiet || { echo "/repo dirty"; exit 2; }
-git -C /repo apply "$P" || exit 2
-trap 'git -C /repo apply -R "$P"; git -C /repo checkout -- .' EXIT
-timeout 300 sh tools/run_baseline.sh >/dev/null 2>&1 && echo "baseline PASS" || echo "baseline FAIL"
+R=${REPO:-/repo}
+git -C $R diff --quiet || { echo "$R dirty"; exit 2; }
+git -C $R apply "$P" || exit 2
+trap 'git -C $R apply -R "$P"; git -C $R checkout -- .' EXIT
+if [ "$R" = /repo ]; then timeout 300 sh tools/run_baseline.sh >/dev/null 2>&1 && echo "baseline PASS" || echo "baseline FAIL"
+else ( cmake -G Ninja -S $R -B $R/_nb -DCMAKE_BUILD_TYPE=Debug >/dev/null 2>&1 && cmake --build $R/_nb >/dev/null 2>&1 && timeout 300 $R/_nb/polyseed-tests | tail -1 | grep -q "All tests were successful" ) && echo "baseline PASS" || echo "baseline FAIL"; rm -rf $R/_nb; export VERIF_REPO=$R; fi
 for id in $(python3 -c "import json;print(' '.join(c['property_id'] for c in json.load(open('MANIFEST.json'))['checks']))"); do
   out=$(./check run $id --tier quick 2>&1); rc=$?
   echo "$out" | grep -E "^VIOLATION|message=|^WARNING|^$id " | head -4
